@@ -62,12 +62,14 @@ def fss_subscript_ok(expr, fss="fss"):
 
 
 def find_parity_sums(fn):
-    """np.sum(<product>, ...) calls whose first argument is a product of two charge arrays"""
+    """np.sum(<product>, ...) calls whose first argument is (after inlining single-assignment temporaries) a product of two charge arrays"""
     out = []
+    inl = A.Inliner(fn, depth=3)
     for c in [n for n in ast.walk(fn) if isinstance(n, ast.Call) and A.call_name(n) in ("np.sum", "numpy.sum")]:
         if not c.args:
             continue
-        e = c.args[0]
+        e = inl.expand(c.args[0])
+        # do not look through the parity reductions `np.sum(tset[:, l1, :], axis=1) % 2` of single legs: inline only names
         prod = e
         if isinstance(prod, ast.Subscript):
             prod = prod.value
@@ -369,11 +371,14 @@ def run(chk):
     chk.verdict("W2", (sg, mcalls[0]), "both sign computations receive one flag vector as last argument", True if len(flag_names) == 1 and
                 all(isinstance(c.args[-1], ast.Name) for c in mcalls) else False, "swap_gate does not pass one and the same flag vector to both sign computations")
     fname = sorted(flag_names)[0]
-    fss_def = [n for n in ast.walk(sg.node) if isinstance(n, ast.Assign) and A.text(n.targets[0]) == fname]
-    chk.require(fss_def, f"swap_gate: definition of the flag vector `{fname}` not found")
-    v = fss_def[0].value
+    cd = A.cond_def(sg.node, fname)
+    chk.require(cd is not None, f"swap_gate: two-way definition of the flag vector `{fname}` not found")
+    fss_def = [cd[3]]
     ok = False
-    if isinstance(v, ast.IfExp):
+    if cd is not None:
+        class _V:  # same shape as an ast.IfExp
+            test, body, orelse = cd[0], cd[1], cd[2]
+        v = _V
         t = v.test
         is_true = isinstance(t, ast.Compare) and len(t.ops) == 1 and isinstance(t.ops[0], (ast.Is, ast.Eq)) and A.text(t.left).endswith(".config.fermionic") \
             and isinstance(t.comparators[0], ast.Constant) and t.comparators[0].value is True
@@ -438,7 +443,10 @@ def run(chk):
     ok = False
     if isinstance(comp, (ast.ListComp, ast.GeneratorExp)):
         from ..core.poly import from_ast, Poly, Rat
-        var = A.text(comp.generators[0].target)
+        g0 = comp.generators[0]
+        var = A.text(g0.target)
+        if isinstance(g0.target, ast.Tuple) and isinstance(g0.iter, ast.Call) and A.call_name(g0.iter) == "enumerate" and g0.target.elts:
+            var = A.text(g0.target.elts[0])          # for n, _ in enumerate(pattern)
         subs = [n for n in ast.walk(comp.elt) if isinstance(n, ast.Subscript) and isinstance(n.slice, ast.Slice)]
         if len(subs) == 1 and subs[0].slice.upper is None and subs[0].slice.lower is not None and subs[0].slice.step is None:
             try:
